@@ -204,7 +204,8 @@ class SlurmOps:
         args = ["--parsable"]
         if dependencies:
             args.append("--dependency=afterok:{}".format(":".join(dependencies)))
-        return call("sbatch", *args, input=script).strip()
+        # With --parsable sbatch prints "jobid[;clustername]".
+        return call("sbatch", *args, input=script).strip().split(";")[0]
 
     def get_job_states_from_squeue(self, tracked_jobs):
         logger.debug("Loading job states from squeue")
